@@ -195,6 +195,40 @@ def run(ctx):
             g2 = False
         if g2:
             ctx.violation('verify(digest, signature object, other key) accepts a signature made by another key', {'op': 'object-history verify()'})
+        # calls WITHOUT a key in between: the object answers for the key it belongs to (ka), whatever other keys were tried on it before
+        sg2 = sign(zh(zz), ka)
+        hist, got2 = [], []
+        for step in range(5):
+            kind = rng.choice(['other-key', 'own-key', 'no-key', 'no-key', 'no-args'])
+            hist.append(kind)
+            try:
+                if kind == 'other-key':
+                    r_ = bool(sg2.verify(zh(zz), kb)); w_ = False
+                elif kind == 'own-key':
+                    r_ = bool(sg2.verify(zh(zz), ka)); w_ = True
+                elif kind == 'no-key':
+                    r_ = bool(sg2.verify(zh(zz))); w_ = True
+                else:
+                    r_ = bool(sg2.verify()); w_ = True
+            except Exception as e:
+                r_, w_ = 'raise:' + type(e).__name__, True
+            got2.append((r_, w_))
+        ctx.evals += 1
+        ctx.count('signature-object-history:keyless-calls')
+        if any(r_ != w_ for r_, w_ in got2):
+            ctx.violation('a signature object that was checked against another key answers differently for its own key afterwards',
+                          {'op': 'object-history keyless', 'calls': hist, 'observed': [r_ for r_, _ in got2], 'expected': [w_ for _, w_ in got2]})
+        # ... and an object that carries key A but holds a signature made by B stays invalid for A after B was tried with another digest
+        sgb = sign(zh(zz), kb)
+        try:
+            obj = Signature(sgb.r, sgb.s, public_key=ka.public())
+            first = bool(obj.verify(zh((zz + 1) % 2 ** 256), kb))
+            then = bool(obj.verify(zh(zz)))
+        except Exception as e:
+            first, then = None, False
+        if first is not None and (first or then):
+            ctx.violation('a signature object carrying key A accepts a signature made by B after B was tried on it',
+                          {'op': 'object-history foreign', 'observed': [first, then], 'expected': [False, False]})
 
     # ---- one message, one signature: the digest written as bytes, as lower-case or as upper-case hexadecimal text is the same message;
     # the public key given as object, bytes or hexadecimal text is the same key
